@@ -322,8 +322,26 @@ def check(run: Run) -> None:
         R.bitmap_positions(run, "C10.o", MAP)
         R.bitmap_positions(run, "C10.o", "src/hgraph/runtime/mesh_node.cpp")
 
+    with run.obligation("C10.p", "K6", "the lazy child-schedule heap is ordered by DEADLINE first: MapChildSchedule::operator> compares `when` before any tie-breaker, and in the "
+                        "direction of a min-heap (std::greater / push_heap with operator>), so the heap front is the earliest pending deadline - the pop loop for due "
+                        "entries and the owner's re-arm both read the front"):
+        fa = R.fn(run, MAP, "operator>", cls="MapChildSchedule")
+        cn = R.Canon()
+        ifs = [s0 for s0 in fa.body.stmts if isinstance(s0, C.If)]
+        run.sites(len(ifs), 1, "comparison cascade")
+        first = ifs[0]
+        c0 = cn(first.cond).replace(" ", "")
+        r0 = [cn(r.e).replace(" ", "") for r in R.find(first.then, lambda x: isinstance(x, C.Return))]
+        run.count(1, "C10.p")
+        ne_forms = ("!(when==other.when)", "when!=other.when", "!(other.when==when)", "other.when!=when")
+        if c0 not in ne_forms or r0 not in (["when>other.when"], ["other.when<when"]):
+            run.finding("C10.p", "MapChildSchedule::operator>:primary-key", f"the primary key of the child-schedule order must be the deadline (`when != other.when -> when > other.when`); "
+                        f"it is `{c0}` -> {r0}: the heap front is no longer the earliest deadline, so a key's due timer hides behind another key's later one", loc=fa.loc(first))
+
 
 VARIANTS = [
+    {"id": "p-seed-C10-8-slot-before-when", "expect": "C10.p", "edits": [{"file": MAP, "find": "                if (when != other.when) { return when > other.when; }\n                if (slot != other.slot) { return slot > other.slot; }", "replace": "                if (slot != other.slot) { return slot > other.slot; }\n                if (when != other.when) { return when > other.when; }"}]},
+    {"id": "p-max-heap-direction", "expect": "C10.p", "edits": [{"file": MAP, "find": "                if (when != other.when) { return when > other.when; }", "replace": "                if (when != other.when) { return when < other.when; }"}]},
     {"id": "o-seed-C10-7-word-index-times-sizeof", "expect": "C10.o", "edits": [{"file": MAP, "find": "                        word_index * SlotBitmap::bits_per_word + bit);", "replace": "                        word_index * sizeof(std::uint64_t) + bit);"}]},
     {"id": "n-seed-C10-5-build-scan-occupied", "expect": "C10.n", "edits": [{"file": MAP, "find": "                if (keys_set.slot_live(slot))\n                {\n                    create_entry_at_slot(view, context, storage, output_mutation, keys_set, slot, evaluation_time);", "replace": "                if (keys_set.slot_occupied(slot))\n                {\n                    create_entry_at_slot(view, context, storage, output_mutation, keys_set, slot, evaluation_time);"}]},
     {"id": "k-compatible-ignores-key-identity", "expect": "C10.k", "edits": [{"file": MAP, "find": "                if (slot >= keys_set.slot_capacity() || !keys_set.slot_occupied(slot) ||\n                    !entry->key.equals(keys_set.at_slot(slot)))", "replace": "                if (slot >= keys_set.slot_capacity() || !keys_set.slot_occupied(slot))"}]},
